@@ -208,6 +208,17 @@ pub fn via_name(v: u8, mutable: bool) -> &'static str {
     }
 }
 
+/// Copy element for `from_slice` (which needs `T: Default + Copy`): its `Default` is a
+/// recognisable non-zero value, so "filled with defaults" cannot be confused with zeroed memory.
+#[derive(Clone, Copy, PartialEq, Debug)]
+pub struct C32(pub u32);
+pub const C32_DEFAULT: u32 = 0x00DE_FA17;
+impl Default for C32 {
+    fn default() -> C32 {
+        C32(C32_DEFAULT)
+    }
+}
+
 /// A vek vector type instantiated at element type `X`.
 pub trait Kind<X: Item>: 'static {
     const N: usize;
@@ -352,8 +363,10 @@ macro_rules! kind {
             fn v_zip_map<F: FnMut(X, X) -> X>(a: Self::V, b: Self::V, mut f: F) -> Self::V { a.zip(b).map(|(x, y)| f(x, y)) }
             fn v_map2<F: FnMut(X, X) -> X>(a: Self::V, b: Self::V, f: F) -> Self::V { a.map2(b, f) }
             fn from_slice_u32(s: &[u32]) -> Vec<u32> {
-                let v = vek::vec::repr_c::$Vec::<u32>::from_slice(s);
-                vec![$(v.$f),+]
+                // a Copy element whose Default is not the all-zero bit pattern
+                let src: Vec<C32> = s.iter().map(|x| C32(*x)).collect();
+                let v = vek::vec::repr_c::$Vec::<C32>::from_slice(&src);
+                vec![$(v.$f.0),+]
             }
             #[inline]
             fn v_field(v: &Self::V, i: usize) -> &X {
